@@ -702,6 +702,7 @@ def run_modules(chk, mods, buffers_per_struct, r, model_ok, tier, compiler="clan
     """mods: [(Module, origin tag, None | {struct name: [Built]})].  Compiles all drivers in
     parallel, runs, judges."""
     stats = chk.extra.setdefault("txt_distribution", {})
+    cc_opt = opt          # `opt` is re-used for option sets below
     scratch = os.path.join(common.scratch(), "c06txt")
     os.makedirs(scratch, exist_ok=True)
     jobs, preps = [], []
@@ -731,7 +732,7 @@ def run_modules(chk, mods, buffers_per_struct, r, model_ok, tier, compiler="clan
             hname = "%s.emb.h" % mod.name
             probe, plog = cppbuild.compile_one(cppbuild.CHECK_PRELUDE + '#include "%s"\nint main() { return 0; }\n' % hname,
                                                name="c06_probe_" + mod.name, extra=["-I" + scratch],
-                                               compiler=compiler, opt=opt, defines=tuple(defines))
+                                               compiler=compiler, opt=cc_opt, defines=tuple(defines))
             if probe is None:
                 raise common.InfraError("driver for module %s does not compile (nor does the bare header):\n%s\n%s" % (
                     mod.name, log[-3000:], prep["text"]))
